@@ -61,6 +61,12 @@ def _imported_private(p: Program, modname: str) -> Dict[str, str]:
     return out
 
 
+def baseline_new_nested(p: Program, fi: FunctionInfo) -> Set[str]:
+    """Names of the nested functions of *fi* that survive the normal form and are not anchors.  (On the pinned tree every such function is
+    either an anchor the rules name or was inlined; what is left after a refactoring is code the rules have not looked into.)"""
+    return {n.name for n in ast.walk(fi.node) if isinstance(n, (ast.FunctionDef, ast.AsyncFunctionDef)) and n is not fi.node}
+
+
 def residuals(p: Program, fi: FunctionInfo) -> List[str]:
     """Constructs in the normalised body of *fi* (nested functions included) that the rules cannot see through."""
     cache = getattr(p, "_opaque_cache", None)
@@ -88,6 +94,8 @@ def residuals(p: Program, fi: FunctionInfo) -> List[str]:
         for c in ast.iter_child_nodes(n):
             parents[id(c)] = n
     for n in ast.walk(fi.node):
+        if isinstance(n, (ast.FunctionDef, ast.AsyncFunctionDef)) and n is not fi.node and n.name not in anch and n.name in baseline_new_nested(p, fi):
+            out.append(f"nested function {n.name} (not inlined)")
         if isinstance(n, ast.Name) and isinstance(n.ctx, ast.Load) and n.id not in shadow:
             if n.id in priv_here or n.id in imported:
                 out.append(f"private helper {n.id} (not inlined)")
